@@ -358,45 +358,68 @@ def rule_client(ctx):
                     ok = fname in ("login", "command", "str", "len") or (fn.name == "login" and fname in ("command",))
                     if not ok and not (isinstance(c.func, ast.Name) and c.func.id in ("len", "str", "bool", "isinstance")):
                         ctx.fail("C20.CLI", c, f"{cls}.{fn.name}: the password is passed to `{src(c.func)}`", construct=f"{fn.name}:password passed to {src(c.func)}")
-    # inside command()
+    # inside command() - and inside helpers of the same class that command() hands the command string to (one level)
     params = [a.arg for a in cmdm.args.args]
     cmdp = params[1] if len(params) > 1 else "command"
-    tc = taint_names(cmdm, {cmdp})
-    censor_p = "censor_after"
+    units = [(cmdm, cmdp, "censor_after", "command()")]
+    bcm = p.methods("BaseClient")
+    tc0 = taint_names(cmdm, {cmdp})
+    for c in walk_no_nested(cmdm):
+        if is_self_call(c) and c.func.attr in bcm and c.func.attr not in ("parse_response", "check_codes", "parse_line"):
+            h = bcm[c.func.attr]
+            hp = [a.arg for a in h.args.args]
+            if hp and hp[0] in ("self", "cls"):
+                hp = hp[1:]
+            h_cmd = h_cens = None
+            for i_, a in enumerate(c.args):
+                if i_ < len(hp) and under_len_only(a, tc0):
+                    h_cmd = hp[i_]
+                if i_ < len(hp) and isinstance(a, ast.Name) and a.id == "censor_after":
+                    h_cens = hp[i_]
+            for k in c.keywords:
+                if k.arg in hp and under_len_only(k.value, tc0):
+                    h_cmd = k.arg
+                if k.arg in hp and isinstance(k.value, ast.Name) and k.value.id == "censor_after":
+                    h_cens = k.arg
+            if h_cmd is not None:
+                # the call itself must be on the path where the command exists, and pass censor_after through
+                units.append((h, h_cmd, h_cens, f"{h.name}()"))
+                ctx.ob("C20.CLI", c, f"command() hands the command string to {h.name}() together with censor_after", h_cens is not None,
+                       f"command() passes the command string to {h.name}() without censor_after", construct=f"command:{h.name} without censor_after")
     n_sites = 0
-    for c in logger_calls(cmdm, nested=False):
-        n_sites += 1
-        args = sink_args(c)
-        used = set().union(*[under_len_only(a, tc) for a in args]) if args else set()
-        if not used:
-            ctx.ob("C20.CLI", c, f"command(): log `{src(c)[:40]}` depends on the command at most through len()", True)
-            continue
-        guards = all_guards(p, c, cmdm)
-        in_plain = any((not pol) and isinstance(t, ast.Name) and t.id == censor_p for t, pol in guards)
-        in_cens = any(pol and isinstance(t, ast.Name) and t.id == censor_p for t, pol in guards)
-        if in_plain:
-            ctx.ob("C20.CLI", c, "command(): the full command is logged only when censor_after is falsy", True)
-            continue
-        if in_cens:
-            bad = set()
-            for a in args:
-                for nm in under_len_only(a, tc):
-                    ds = [v for k, v, _ in local_defs(cmdm, nm) if k == "assign"]
-                    fine = nm != cmdp and ds and all(isinstance(v, ast.Subscript) and isinstance(v.slice, ast.Slice) and v.slice.lower is None and v.slice.step is None
-                                                     and isinstance(v.slice.upper, ast.Name) and v.slice.upper.id == censor_p and isinstance(v.value, ast.Name) and v.value.id == cmdp for v in ds)
-                    if not fine:
-                        bad.add(nm)
-            ctx.ob("C20.CLI", c, "command(): the censored branch logs only the prefix slice command[:censor_after] and len()-only values", not bad,
-                   f"command(): censored branch logs {sorted(bad)} beyond the non-secret prefix", construct="command:censored branch leaks")
-        else:
-            ctx.fail("C20.CLI", c, f"command() logs {sorted(used)} regardless of censor_after", construct="command:unconditional log")
+    for fn_, cmdp_, censor_p, label in units:
+        tc = taint_names(fn_, {cmdp_})
+        for c in logger_calls(fn_, nested=False):
+            n_sites += 1
+            args = sink_args(c)
+            used = set().union(*[under_len_only(a, tc) for a in args]) if args else set()
+            if not used:
+                ctx.ob("C20.CLI", c, f"{label}: log `{src(c)[:40]}` depends on the command at most through len()", True)
+                continue
+            guards = all_guards(p, c, fn_)
+            in_plain = censor_p is not None and any((not pol) and isinstance(t, ast.Name) and t.id == censor_p for t, pol in guards)
+            in_cens = censor_p is not None and any(pol and isinstance(t, ast.Name) and t.id == censor_p for t, pol in guards)
+            if in_plain:
+                ctx.ob("C20.CLI", c, f"{label}: the full command is logged only when censor_after is falsy", True)
+                continue
+            if in_cens:
+                bad = set()
+                for a in args:
+                    for nm in under_len_only(a, tc):
+                        ds = [v for k, v, _ in local_defs(fn_, nm) if k == "assign"]
+                        fine = nm != cmdp_ and ds and all(isinstance(v, ast.Subscript) and isinstance(v.slice, ast.Slice) and v.slice.lower is None and v.slice.step is None
+                                                          and isinstance(v.slice.upper, ast.Name) and v.slice.upper.id == censor_p and isinstance(v.value, ast.Name) and v.value.id == cmdp_ for v in ds)
+                        if not fine:
+                            bad.add(nm)
+                ctx.ob("C20.CLI", c, f"{label}: the censored branch logs only the prefix slice command[:censor_after] and len()-only values", not bad,
+                       f"{label}: censored branch logs {sorted(bad)} beyond the non-secret prefix", construct="command:censored branch leaks")
+            else:
+                ctx.fail("C20.CLI", c, f"{label} logs {sorted(used)} regardless of censor_after", construct="command:unconditional log")
+        for n in walk_no_nested(fn_):
+            if censor_p and isinstance(n, ast.Assign) and any(isinstance(t_, ast.Name) and t_.id == censor_p for t_ in n.targets):
+                ctx.fail("C20.CLI", n, f"censor_after is reassigned inside {label}", construct="command:censor_after reassigned")
     if n_sites < 2:
-        ctx.floor_errors.append(f"rule=C20.CLI: {n_sites} log sites in command() (floor 2)")
-    # the raised StatusCodeError / parse_response logging: info lines come from the server, not from the command
-    # censor_after is not overwritten inside command()
-    for n in walk_no_nested(cmdm):
-        if isinstance(n, ast.Assign) and any(isinstance(t_, ast.Name) and t_.id == censor_p for t_ in n.targets):
-            ctx.fail("C20.CLI", n, "censor_after is reassigned inside command()", construct="command:censor_after reassigned")
+        ctx.floor_errors.append(f"rule=C20.CLI: {n_sites} log sites in command() and its helpers (floor 2)")
 
 
 def rule_new(ctx):
